@@ -13,6 +13,7 @@ soup.  Three consumers look at the same damaged copy: the streaming reader
 
 from dsim import gen, pipe
 from dsim import refmodel as R
+from dsim.actors import LOAD_STREAMS
 
 ID = 'C08'
 LEVEL = 'exploration'
@@ -155,7 +156,8 @@ def consumers(rng, read_error=None):
     cs = [r, {'id': 'D1', 'kind': 'dom_load', 'file': 'f1',
               'via': 'from_bytes'},
           {'id': 'D2', 'kind': 'dom_load', 'file': 'f1',
-           'via': 'hook' if rng.chance(0.12) else 'from_stream'}]
+           'via': 'hook' if rng.chance(0.12) else 'from_stream',
+           'stream': rng.choice(LOAD_STREAMS)}]
     return cs
 
 
@@ -384,8 +386,19 @@ def execute(scn, L):
         from dsim import domworld
         a, b = loads
         out.probe('both_loaders_compared')
+        # a stream that sets the whole buffer aside before reading (a
+        # buffered file) cannot serve a declared length of many terabytes:
+        # the reader says "too large", where a stream that just hands over
+        # what it has lets the length through.  Both are answers to a
+        # damaged file; the two loaders were not given the same stream.
+        unallocatable = any(
+            x.spec.get('stream') and x.end == 'raise' and
+            x.exc_info['parse_error'] and
+            x.exc_info['msg'].endswith('is too large') for x in loads)
 
-        if a.end != b.end:
+        if unallocatable:
+            out.probe('length_not_allocatable_on_this_stream')
+        elif a.end != b.end:
             out.violate('C08.loaders-disagree', '%s-vs-%s' % (a.end, b.end),
                         {'from_bytes' if a.spec.get('via') == 'from_bytes'
                          else 'from_stream': a.exc_info,
